@@ -718,6 +718,7 @@ def run(chk, fb, tier):
 
     symmetry.rule_empty_flag_attrs(chk, fb, "C05.i")
     symmetry.rule_accessor_keeps_state(chk, fb, "C05.l")
+    symmetry.rule_positional_tables(chk, fb, "C05.m")
     symmetry.rule_attr_guards(chk, fb, "C05.j")
     symmetry.rule_empty_covers_children(chk, fb, "C05.k")
     chk.assume("MD5 digests of different key strings differ (collision-free for the purpose of interning)")
